@@ -989,7 +989,12 @@ def _contexts_active_by_trickery(frame: types.FrameType) -> List[Context]:
     ret = [
         replace(
             with_block_info[block.handler],
-            obj=frame_details.stack[block.level - 1].__self__,  # type: ignore
+            # What's on the stack is the manager's bound __exit__ or __aexit__.
+            # (If the class provides that as something that doesn't get bound,
+            # like a staticmethod or a functools.partial, we can't tell which
+            # object the manager is, but that shouldn't spoil the analysis of
+            # the whole frame.)
+            obj=getattr(frame_details.stack[block.level - 1], "__self__", None),
         )
         for block in with_blocks
     ]
